@@ -137,14 +137,25 @@ def gen_stress(rng):
         if rng.random() < 0.6:
             ports.append([len(signals) - 1, "o"])
     iob = []
-    if rng.random() < 0.3:
-        # one I/O port whose bit ranges are buffered separately, possibly in different directions
+    for _ in range(rng.choice([0, 0, 0, 1, 1, 2, 3])):
+        # an I/O port whose bit ranges are buffered separately, possibly in different directions; several I/O
+        # ports may share a name (pads created in a loop) or be called like a signal, and may meet in one module
         w = rng.choice([1, 2, 3, 4, 5])
         cuts = sorted(rng.sample(range(1, w), min(w - 1, rng.randrange(0, 3)))) if w > 1 else []
         bounds = [0] + cuts + [w]
-        parts = [[lo, hi, rng.choice(["i", "o", "io"]), rng.randrange(nmod), rng.randrange(nsig)] for lo, hi in zip(bounds, bounds[1:])
-                 if rng.random() < 0.9]
-        iob.append({"w": w, "parts": parts})
+        home = rng.randrange(nmod)
+        parts = [[lo, hi, rng.choice(["i", "o", "io"]), home if rng.random() < 0.6 else rng.randrange(nmod), rng.randrange(nsig)]
+                 for lo, hi in zip(bounds, bounds[1:]) if rng.random() < 0.9]
+        entry = {"w": w, "parts": parts, "name": rng.choice(["pad", "pad", "pad", "a", "o", "led"]),
+                 "raw": rng.random() < 0.5, "inst_uses": []}
+        if rng.random() < 0.15:
+            # pad bits wired straight to a port of a foreign instance; when they overlap a buffered range (or each
+            # other) the pad bit is used twice and the design has to be refused
+            for _u in range(rng.choice([1, 1, 2])):
+                lo = rng.randrange(w)
+                hi = rng.randrange(lo + 1, w + 1)
+                entry["inst_uses"].append([lo, hi, rng.choice(["i", "o", "io"]), rng.randrange(nmod)])
+        iob.append(entry)
     prints = []
     for _ in range(rng.choice([0, 0, 1, 2])):
         prints.append({"mod": rng.randrange(nmod), "dom": rng.choice(["comb", "sync"]), "kind": rng.choice(["print", "assert", "assume", "cover"]),
@@ -258,9 +269,27 @@ def build_stress(d):
             mm.d[pr["dom"]] += Cover(sg.all(), fmt)
     ioports = []
     for b in d["iob"]:
-        port = IOPort(b["w"], name="pad")
+        port = IOPort(b["w"], name=b.get("name", "pad"))
         ioports.append(port)
         for lo, hi, dr, mod, src in b["parts"]:
+            if b.get("raw"):
+                # the buffer primitive placed directly in the module (no lib.io wrapper module around it)
+                from amaranth.hdl._ir import IOBufferInstance
+                n = hi - lo
+                kw = {}
+                if dr in ("o", "io"):
+                    ov = Signal(n, name="padout")
+                    mods[mod].d.comb += ov.eq(sigs[src])
+                    kw["o"] = ov
+                if dr == "io":
+                    kw["oe"] = sigs[src][0] if len(sigs[src]) else Const(1, 1)
+                if dr in ("i", "io"):
+                    iv = Signal(n, name="padraw")
+                    kw["i"] = iv
+                    sink = Signal(n, name="padin")
+                    mods[mod].d.sync += sink.eq(iv)
+                mods[mod].submodules += IOBufferInstance(port[lo:hi], **kw)
+                continue
             buf = io.Buffer(dr, io.SingleEndedPort(port[lo:hi], direction=dr))
             mods[mod].submodules += buf
             if dr in ("o", "io"):
@@ -270,6 +299,9 @@ def build_stress(d):
             if dr in ("i", "io"):
                 sink = Signal(hi - lo, name="padin")
                 mods[mod].d.sync += sink.eq(buf.i)
+    for b, port in zip(d["iob"], ioports):
+        for lo, hi, dr, mod in b.get("inst_uses", ()):
+            mods[mod].submodules += Instance("padcell", **{dr + "_pad": port[lo:hi]})
     ports = []
     DIR = {"i": PortDirection.Input, "o": PortDirection.Output, None: None}
     for j, dr in d["ports"]:
@@ -279,6 +311,7 @@ def build_stress(d):
 
 def convert_stress(d):
     from amaranth.back import rtlil
+    IO_WIRE_NAMES[:] = []
     top, sigs, ports, ioports, foreign = build_stress(d)
     plist = []
     for s, dr in ports:
@@ -288,7 +321,19 @@ def convert_stress(d):
     if len(set(names)) == len(names) and all(dr is not None for _, dr in ports) and not ioports:
         pd = {s.name: (s, dr) for s, dr in ports}
         return rtlil.convert(top, ports=pd, emit_src=False), foreign, sigs
-    return rtlil.convert(top, ports=plist + ioports, emit_src=False), foreign, sigs
+    if not ioports:
+        return rtlil.convert(top, ports=plist, emit_src=False), foreign, sigs
+    # with I/O ports: the same steps as rtlil.convert(), keeping hold of the design so that the names its top-level
+    # I/O ports ended up with (they are de-duplicated) are known to the structural checker
+    from amaranth.hdl import IOPort
+    from amaranth.hdl._ir import Fragment
+    design = Fragment.get(top, None).prepare(ports=plist + ioports, hierarchy=("top",))
+    IO_WIRE_NAMES[:] = ["\\" + name for (name, port, _dir) in design.ports if isinstance(port, IOPort)]
+    text, _map = rtlil.convert_fragment(design, name="top", emit_src=False)
+    return text, foreign, sigs
+
+
+IO_WIRE_NAMES = []
 
 
 def expected_param(p):
@@ -310,6 +355,15 @@ def expected_param(p):
 def check_instances(doc, d, sigs, out, ctx):
     import re
     cells = [(m, c) for m in doc.modules.values() for c in m.cells.values() if not c.type.startswith("$") and c.type not in doc.modules]
+    padcells = [(m, c) for (m, c) in cells if c.type == "\\padcell"]
+    cells = [(m, c) for (m, c) in cells if c.type != "\\padcell"]
+    npad = sum(len(b.get("inst_uses", ())) for b in d.get("iob", ()))
+    if len(padcells) != npad:
+        out["violations"].append({"mechanism": "instance:count", "detail": dict(ctx, found=len(padcells), expected=npad, kind="pad cells")})
+    for (m, c) in padcells:
+        (pname, bits), = c.conns.items()
+        if any(b[0] != "w" for b in bits):
+            out["violations"].append({"mechanism": "instance:fidelity", "detail": dict(ctx, why=f"pad cell port {pname} is not connected to pad wires")})
     if len(cells) != len(d["instances"]):
         out["violations"].append({"mechanism": "instance:count", "detail": dict(ctx, found=len(cells), expected=len(d["instances"]))})
         return
@@ -369,15 +423,38 @@ def check_instances(doc, d, sigs, out, ctx):
             out["violations"].append({"mechanism": "instance:fidelity", "detail": dict(ctx, instance=inst, why=why)})
 
 
+def pad_bit_used_twice(d):
+    """-> [iob index, bit] of a pad bit with two users (buffered ranges and instance connections), or None"""
+    for k, b in enumerate(d["iob"]):
+        seen = set()
+        for use in list(b["parts"]) + list(b.get("inst_uses", ())):
+            for bit in range(use[0], use[1]):
+                if bit in seen:
+                    return [k, bit]
+                seen.add(bit)
+    return None
+
+
 def run_stress(rng, out):
     d = gen_stress(rng)
     ctx = {"stress": d}
     ws = any(any(ch.isspace() for ch in s["name"]) for s in d["signals"])
+    twice = pad_bit_used_twice(d)
+    if twice:
+        out["hist"]["pad-bit-used-twice-planted"] = out["hist"].get("pad-bit-used-twice-planted", 0) + 1
     try:
         text, foreign, sigs = convert_stress(d)
+        if twice:
+            out["violations"].append({"mechanism": "pad-bit-used-twice-accepted", "detail": dict(ctx, pad_bit=twice)})
+            return
     except Exception as ex:
         if exc_origin(ex) != "repo":
             raise
+        from amaranth.hdl import DriverConflict
+        if twice and isinstance(ex, DriverConflict):
+            out["hist"]["pad-bit-used-twice-refused"] = out["hist"].get("pad-bit-used-twice-refused", 0) + 1
+            out["evaluations"] += 1
+            return
         out["violations"].append({"mechanism": f"conversion-exception:{type(ex).__name__}",
                                   "detail": dict(ctx, exception=repr(ex)[:300], whitespace_name=ws)})
         return
@@ -387,7 +464,7 @@ def run_stress(rng, out):
     except P.ParseError as ex:
         out["violations"].append({"mechanism": "rtlil-does-not-parse", "detail": dict(ctx, error=str(ex)[:300], whitespace_name=ws)})
         return
-    check_into(doc, out, ctx, foreign, io_wires=("\\pad",))
+    check_into(doc, out, ctx, foreign, io_wires=tuple(IO_WIRE_NAMES))
     check_instances(doc, d, sigs, out, ctx)
     names = [s["name"] for s in d["signals"] if s["name"]]
     clash = len(set(names)) != len(names)
@@ -458,7 +535,7 @@ def replay(rec):
         try:
             text, foreign, sigs = convert_stress(d["stress"])
             doc = P.parse(text)
-            check_into(doc, out, {}, foreign, io_wires=("\\pad",))
+            check_into(doc, out, {}, foreign, io_wires=tuple(IO_WIRE_NAMES))
             check_instances(doc, d["stress"], sigs, out, {})
         except Exception as ex:
             out["violations"].append({"mechanism": type(ex).__name__, "detail": {"error": str(ex)[:300]}})
